@@ -15,8 +15,8 @@ PY
 rc=$?
 if [ $rc -eq 0 ]; then
   git -C $S diff | grep '^[-+]' | grep -v '^+++\|^---'
-  /verif/tools/baseline_check.py $S | tail -1
-  cd /verif && VERIF_REPO=$S VERIF_OUT=$O ./check $CHK --tier $TIER 2>&1 | grep -E "VIOLATION|^\[$CHK\]" | cut -c1-200
+  ${VERIF_DIR:-/verif}/tools/baseline_check.py $S | tail -1
+  cd ${VERIF_DIR:-/verif} && VERIF_REPO=$S VERIF_OUT=$O ./check $CHK --tier $TIER 2>&1 | grep -E "VIOLATION|^\[$CHK\]" | cut -c1-200
   python3 - $O <<'PY'
 import json,glob,sys
 for f in sorted(glob.glob(sys.argv[1]+'/replay/*.json'))[:1]:
